@@ -6,6 +6,8 @@ def histGrowFactor : Nat := 2
 def heunCopiesRhs : Bool := true
 /-- BaseBackend.run builds `times` as np.arange(n)*step (true) or as linspace(0,T,n,endpoint=False)/unknown (false) -/
 def timeAxisIsArange : Bool := true
+def opCacheKeyIncludesDefinition : Bool := true
+def irCachesResetAtApply : Bool := true
 def replaceAllowedFollowOps : String := "-+=*/^<>=!.%@[]():, '"
 def varInExprFollowOps : String := "+-=*/^<>=!.%@[]():, "
 
